@@ -154,6 +154,11 @@ def build(verbose=False):
             log += out2
             if rc2 == 0:
                 open(stamp, 'w').write(h)
+            else:
+                # never run a stale runner against a newer model
+                for f in (RUNNER, stamp):
+                    if os.path.exists(f):
+                        os.remove(f)
         info['ok_model'] = os.path.exists(RUNNER) and \
             os.path.exists(os.path.join(COQ, 'Extract', 'Extract.vo'))
     info['log'] = log
